@@ -25,6 +25,15 @@ def escQ : List Char → List Char
   | [] => []
   | c :: r => if c = '\\' ∨ c = '"' then '\\' :: c :: escQ r else c :: escQ r
 
+/-- `s.replace(c, t)` for a one-character `c` -/
+def rep1 (c : Char) (t : List Char) (s : List Char) : List Char := s.flatMap (fun x => if x = c then t else [x])
+
+/-- a chain `s.replace(c1, t1).replace(c2, t2)…`, applied left to right (what the code does; the
+pairs are regenerated from the source into Generated/Src.lean) -/
+def replSeq : List (Char × List Char) → List Char → List Char
+  | [], s => s
+  | (c, t) :: ps, s => replSeq ps (rep1 c t s)
+
 /-- a field value: a string, or the text of a number / boolean -/
 inductive FVal
   | str (s : List Char)
